@@ -317,6 +317,8 @@ func checkC17(p *Prog, r *Report) {
 	}
 	r.Floor("R5", "order edges", len(lo.Edges), 3)
 	r.Stat("functions analysed", len(ls.fns))
+	r.Rule("R8", "a list field whose slice header a getter hands out (callers iterate it without the lock) is never modified in place: no element store, no copy into it, no in-place library routine (slices.DeleteFunc, sort.Slice, …); removal builds a new slice")
+	escapedListsImmutable(p, ls, r, "R8", nil)
 	// R7: snapshots are read without any lock (replies being encoded, application code), so a write in place
 	// into data reachable from a snapshot is a data race whatever lock the writer holds
 	r.Rule("R7", "no function writes in place into a list reachable from stored function data or from a snapshot handed out (the ownership rule C11-O3): such data is read without locks by whoever holds the snapshot")
